@@ -10,8 +10,8 @@
    file or no file).  wf_cluster: database oids and names distinct; per database filenodes (> 0) and relation oids
    distinct; attribute numbers positive. *)
 Require Import PG.Base.Bytes PG.Base.Value.
-Require Import PG.C12.Lib PG.C12.Model PG.C12.Spec PG.C12.Cli.
-Require Import PG.C12.CacheProofs PG.C12.DumpProofs PG.C12.PathProofs PG.C12.CliProofs PG.C12.HistoricProofs.
+Require Import PG.C12.Lib PG.C12.Model PG.C12.Spec PG.C12.Cli PG.C12.Expect.
+Require Import PG.C12.CacheProofs PG.C12.DumpProofs PG.C12.PathProofs PG.C12.ExpectProofs PG.C12.CliProofs PG.C12.HistoricProofs.
 Require Import Coq.Sorting.Permutation Coq.Sorting.Sorted.
 Require Import Coq.Strings.String.
 Import Coq.Init.Datatypes Coq.Lists.List ListNotations.
@@ -60,6 +60,29 @@ Theorem C12_remote_dump : forall E fs c,
              dd = expected_dump E c None.
 Proof. intros. eapply remote_dump; eauto. Qed.
 Print Assumptions C12_remote_dump.
+
+(* Remote table dump and database dump (by oid), after ANY earlier calls: DumpTable gives the relation's columns and all
+   the rows of its file - exactly the data-directory dump's table entry; DumpDatabase gives the data-directory dump's
+   entry of that database minus the documented omissions (also for a template database, which only DumpAll skips). *)
+Theorem C12_remote_table_dump : forall E fs c,
+  wf_cluster c -> realizes E (hint_of E fs) fs c ->
+  forall ks d r, In d (a_dbs c) -> In r (d_rels d) ->
+  snd (do_call E fs (after E fs (NewRemoteClient E fs) ks) (KDumpTable (d_oid d) (Some (ti_of r)))) =
+  NTableDump E (Some (expected_table E (withDefaults None) r)).
+Proof.
+  intros E fs c WF R ks d r Hd Hr. rewrite call_after. cbn [pure_call option_map]. f_equal. f_equal.
+  eapply p_dump_table_expected; eauto.
+Qed.
+Print Assumptions C12_remote_table_dump.
+Theorem C12_remote_database_dump : forall E fs c,
+  range_perm E -> wf_cluster c -> realizes E (hint_of E fs) fs c ->
+  forall ks d, In d (a_dbs c) ->
+  snd (do_call E fs (after E fs (NewRemoteClient E fs) ks) (KDumpDatabase (d_oid d))) =
+  NDbDump E (Some (restrict (expected_db E (withDefaults None) d))).
+Proof.
+  intros E fs c RP WF R ks d Hd. rewrite call_after. cbn [pure_call]. f_equal. eapply p_dump_database_expected; eauto.
+Qed.
+Print Assumptions C12_remote_database_dump.
 
 (* Listings: Databases = pg_database; Tables = every relation in filenode order; Columns = the relation's attributes;
    the listing restricted to ordinary non-pg_ relations is the dump's table set and Columns are the dump's columns. *)
@@ -128,6 +151,19 @@ Theorem C12_cache : forall E fs ks,
 Proof. exact run_calls_pure. Qed.
 Print Assumptions C12_cache.
 
+(* Every method, every call sequence: ONE client, driven through any sequence ks of calls (all 18 methods; by-name
+   calls, Exec commands and database dumps with ANY arguments; by-oid listings of the cluster's databases; queries and
+   table dumps about nil, a filenode 0 or the cluster's relations - call_in), answers call by call exactly what
+   C12/Expect.v reads off the ABSTRACT cluster: listings, exact-name-first lookups, firstn n (map (project cs) rows),
+   the data-directory dump minus the documented omissions, Summary, and Exec's dispatch onto these.
+   creds_of / ctl_of: what global/1260 parses to / the bytes of global/pg_control. *)
+Theorem C12_answers : forall E fs c,
+  range_perm E -> wf_cluster c -> realizes E (hint_of E fs) fs c ->
+  forall ks, Forall (call_in c) ks ->
+  run_calls E fs (NewRemoteClient E fs) ks = map (expected_answer E c (creds_of E fs) (ctl_of fs)) ks.
+Proof. intros. eapply answers_any_client; eauto. Qed.
+Print Assumptions C12_answers.
+
 (* The command line: main.go's chain (in source order) is the decision table; a plain invocation dumps with exactly
    the library options the flags name, rendered by the -sql / -csv / JSON switch; -list-db prints ListDatabases,
    which is the sorted arrangement (templates last, then by name) of pg_database. *)
@@ -162,6 +198,12 @@ Proof. exact remote_kinds_refuted. Qed.
 Theorem C12_equalfold_refuted :
   exists (l : list bytes) x, NoDup l /\ In x l /\ lookup_h w_env (fun n => n) l x <> Some x.
 Proof. exact equalfold_refuted. Qed.
+
+(* Historic (D63): a database of pg_database without a readable pg_class was left out by DumpDataDir but listed
+   (with no tables) by the old RemoteClient.DumpAll; the repaired DumpAll leaves it out too. *)
+Theorem C12_missing_directory_refuted :
+  exists E fs, DumpDataDir E fs None = Some [] /\ p_dump_all_h2 E fs <> [] /\ p_dump_all E fs = [].
+Proof. exact missing_directory_refuted. Qed.
 
 (* non-vacuity: a concrete environment, file system and cluster satisfy all the hypotheses *)
 Example C12_nonvacuous : range_perm w_env /\ wf_cluster w_cluster /\ realizes w_env (hint_of w_env w_fs) w_fs w_cluster.
